@@ -59,9 +59,9 @@ def run_colander_scenario(p, wd):
         L = pf.L if lim is None else lim
         exp = pf_expected(pf, comps=kept, L=L)
         n0 = len(fails)
-        compare_plotfile(out, exp, fails, what)
+        compare_plotfile(out, exp, fails, "colander output")
         if len(fails) == n0:
-            taste_ok(out, fails, what)
+            taste_ok(out, fails, "colander output")
         for f in fails[n0:]:
             f["call"] = what
     if tree_digest(path) != before:
@@ -191,4 +191,184 @@ def run_pestle_scenario(p, wd):
             fails.append({"what": "volume integral differs from the exactly-once sum", "call": what,
                           "detail": f"{got!r} vs {exp!r} (rel {abs(got - exp) / abs(exp):.3e})", "limit": lim,
                           "mixed": bool(p.get("box_sizes"))})
+    return {"fails": fails[:20], "checks": checks}
+
+
+def ck_expected(ck, gradp, reactions, flooring, species=None):
+    """the plotfile chk2plt must write for a checkpoint (the property's pure chk->plt operation)"""
+    sp = species or ck.species
+    names = ["x_velocity", "y_velocity", "z_velocity", "density"] + [f"Y({s})" for s in sp] + ["rhoh", "temp", "RhoRT"]
+    if gradp:
+        names += ["gradpx", "gradpy", "gradpz"]
+    if reactions:
+        names += [f"I_R({s})" for s in sp]
+    L = ck.L
+    data = []
+    for lv in range(L + 1):
+        lvd = []
+        for b in range(ck.nboxes(lv)):
+            st = np.array(ck.data["state"][lv][b], dtype=float, copy=True)
+            if flooring:
+                ys = st[..., 4:-3]
+                st[..., 4:-3] = ys / np.sum(ys, axis=-1)[..., None]
+            parts = [st]
+            if gradp:
+                parts.append(ck.data["gradp"][lv][b])
+            if reactions:
+                parts.append(ck.data["I_R"][lv][b])
+            lvd.append(np.concatenate(parts, axis=-1))
+        data.append(lvd)
+    geo_hi = ck.geo_hi
+    exp = {"names": names, "ndims": 3, "time": ck.time, "geo_lo": list(ck.geo_lo), "geo_hi": list(geo_hi), "L": L,
+           "n": [ck.n(lv) for lv in range(L + 1)], "dx": [ck.dx(lv) for lv in range(L + 1)],
+           "boxes": [list(ck.levels[lv]) for lv in range(L + 1)], "data": data,
+           "bounds": [[[(ck.geo_lo[d] + lo[d] * ck.dx(lv)[d], ck.geo_lo[d] + (hi[d] + 1) * ck.dx(lv)[d]) for d in range(3)]
+                       for lo, hi in ck.levels[lv]] for lv in range(L + 1)]}
+    exp["mins"] = [np.array([np.min(d, axis=(0, 1, 2)) for d in lvd]) for lvd in data]
+    exp["maxs"] = [np.array([np.max(d, axis=(0, 1, 2)) for d in lvd]) for lvd in data]
+    return exp
+
+
+def run_chk2plt_scenario(p, wd):
+    """C17: chk2plt carries the checkpoint's interior state into a valid plotfile."""
+    from amr_kitchen.chk2plt.chk2plt import chk2plt
+    fails = []
+    checks = 0
+    rng = random.Random(p["seed"])
+    ck = gen.make_ck(n0=tuple(p.get("n0", (16, 16, 8))), geo_lo=tuple(p.get("geo_lo", (0.5, -1.0, 2.0))),
+                     dx0=tuple(p.get("dx0", (0.1, 0.2, 0.4))), time=p.get("time", 0.3721), step=p.get("step", 7),
+                     nspecies=p.get("nspecies", 3), ghost=p.get("ghost", 2), nlevels=p.get("nlevels", 2), box=8,
+                     box_sizes=tuple(p["box_sizes"]) if p.get("box_sizes") else None, nfiles=p.get("nfiles", 2),
+                     layout=p.get("layout", "shuffled"), payload=p.get("payload", "random"), seed=p["seed"])
+    chk = os.path.join(wd, p.get("chk_name", "chk00007"))
+    gen.write_checkpoint(chk, ck)
+    before = tree_digest(chk)
+    ref = None
+    if p.get("species_source") == "plotfile":
+        # a reference plotfile that only provides species names
+        rp = gen.make_pf(ndims=3, names=[f"Y({s})" for s in ck.species] + ["temp"], n0=(8, 8, 8), nlevels=1, nfiles=1, seed=1)
+        ref = os.path.join(wd, "ref_plt")
+        gen.write_plotfile(ref, rp)
+    combos = [(g, r, f) for g in (True, False) for r in (False, True) for f in (True, False)]
+    rng.shuffle(combos)
+    for ci, (gradp, reac, floor) in enumerate(combos[: p.get("ncombos", 3)]):
+        out = os.path.join(wd, f"plt_out_{ci}")
+        what = f"chk2plt(chk, gradp={gradp}, species_reactions={reac}, floor_massfracs={floor}, ghost={ck.ghost})"
+        checks += 1
+        try:
+            if ref:
+                chk2plt(chk, target_plotfile=ref, gradp=gradp, species_reactions=reac, floor_massfracs=floor, pltdir=out)
+            else:
+                chk2plt(chk, species=list(ck.species), gradp=gradp, species_reactions=reac, floor_massfracs=floor, pltdir=out)
+        except Exception as e:      # noqa
+            fails.append({"what": "chk2plt raised on a valid checkpoint", "call": what, "detail": f"{type(e).__name__}: {str(e)[:120]}"})
+            continue
+        exp = ck_expected(ck, gradp, reac, floor)
+        n0 = len(fails)
+        compare_plotfile(out, exp, fails, "chk2plt output", data_mode="bits" if not floor else "close", rtol=1e-14, minmax_rtol=1e-12)
+        if len(fails) == n0:
+            taste_ok(out, fails, "chk2plt output", coords=True)
+        for f in fails[n0:]:
+            f["call"] = what
+    if tree_digest(chk) != before:
+        fails.append({"what": "chk2plt wrote into the checkpoint", "call": "", "detail": ""})
+    return {"fails": fails[:20], "checks": checks}
+
+
+def merged_expected(pf1, pf2, vars1, vars2):
+    """merge(PF1, PF2, vars1, vars2): selected fields of the first, then those of the second not already taken"""
+    n1, n2 = list(pf1.names), list(pf2.names)
+    s1 = n1 if vars1 is None else [v for v in vars1 if v in n1]
+    s2 = n2 if vars2 is None else [v for v in vars2 if v in n2]
+    s2 = [v for v in s2 if v not in s1]
+    k1, k2 = [n1.index(v) for v in s1], [n2.index(v) for v in s2]
+    exp = pf_expected(pf1, comps=k1)
+    e2 = pf_expected(pf2, comps=k2)
+    exp["names"] = s1 + s2
+    for lv in range(pf1.L + 1):
+        boxes2 = list(pf2.levels[lv])
+        for b, bx in enumerate(pf1.levels[lv]):
+            b2 = boxes2.index(bx)
+            exp["data"][lv][b] = np.concatenate([exp["data"][lv][b], e2["data"][lv][b2]], axis=-1)
+        perm = [boxes2.index(bx) for bx in pf1.levels[lv]]
+        exp["mins"][lv] = np.concatenate([exp["mins"][lv], e2["mins"][lv][perm]], axis=1)
+        exp["maxs"][lv] = np.concatenate([exp["maxs"][lv], e2["maxs"][lv][perm]], axis=1)
+    return exp, s1, s2
+
+
+def run_combine_scenario(p, wd):
+    """C06: combine merges fields box by box whatever the two binary layouts; different meshes are refused before
+    anything is written."""
+    from amr_kitchen import PlotfileCooker
+    from amr_kitchen.combine.combine import combine
+    fails = []
+    checks = 0
+    rng = random.Random(p["seed"])
+    names1 = ["density", "temp", "Y(H2)", "pressure"][: p.get("nf1", 3)]
+    names2 = ["HeatRelease", "temp", "mag_vort"][: p.get("nf2", 2)]
+    pp = dict(p, ndims=3)
+    pf1, path1 = make_input(dict(pp, layout=p["layout1"], nfiles=p["nfiles1"]), wd, name="plt_first", names=names1)
+    lay2 = p["layout2"]
+    if lay2 == "same-as-first":
+        layout2 = [(pf1.files[lv], {k: list(v) for k, v in pf1.order[lv].items()}) for lv in range(pf1.L + 1)]
+    else:
+        layout2 = lay2
+    pf2 = gen.make_pf(ndims=3, names=names2, n0=pf1.n0, geo_lo=pf1.geo_lo, dx0=pf1.dx0, levels=pf1.levels, time=pf1.time,
+                      nfiles=p["nfiles2"], layout=layout2, seed=p["seed"] + 77, payload="random")
+    path2 = os.path.join(wd, "plt_second")
+    gen.write_plotfile(path2, pf2)
+    d1, d2 = tree_digest(path1), tree_digest(path2)
+    sels = [(None, None), (names1[:1], None), (None, names2[-1:]), (list(reversed(names1)), list(names2)),
+            (names1[:2] + ["no_such"], ["temp", names2[0]])]
+    rng.shuffle(sels)
+    for ci, (v1, v2) in enumerate(sels[: p.get("ncombos", 3)]):
+        out = os.path.join(wd, f"comb_{ci}")
+        as_str = (ci % 2 == 1)
+        a1 = None if v1 is None else (" ".join(v1) if as_str else list(v1))
+        a2 = None if v2 is None else (" ".join(v2) if as_str else list(v2))
+        what = f"combine(first[{p['layout1']}], second[{p['layout2']}], vars1={a1!r}, vars2={a2!r})"
+        checks += 1
+        try:
+            combine(PlotfileCooker(path1), PlotfileCooker(path2), pltout=out, vars1=a1, vars2=a2)
+        except Exception as e:      # noqa
+            exp, s1, s2 = merged_expected(pf1, pf2, v1, v2)
+            if not s2 or not s1:
+                continue        # nothing to take from one side: refusing is the documented behaviour
+            fails.append({"what": "combine raised on a valid request", "call": what, "detail": f"{type(e).__name__}: {str(e)[:120]}"})
+            continue
+        exp, s1, s2 = merged_expected(pf1, pf2, v1, v2)
+        n0 = len(fails)
+        compare_plotfile(out, exp, fails, "combine output")
+        if len(fails) == n0:
+            taste_ok(out, fails, "combine output")
+        for f in fails[n0:]:
+            f["call"] = what
+    # refusals: other level count, other boxes -> error before anything is written
+    other = gen.make_pf(ndims=3, names=["zeta"], n0=pf1.n0, geo_lo=pf1.geo_lo, dx0=pf1.dx0, levels=pf1.levels[:-1] if pf1.L > 0 else None,
+                        nlevels=pf1.L + 2 if pf1.L == 0 else None or 1, nfiles=1, seed=5, time=pf1.time)
+    other_path = os.path.join(wd, "plt_other_levels")
+    gen.write_plotfile(other_path, other)
+    shifted_levels = [list(lv) for lv in pf1.levels]
+    if pf1.L >= 1 and len(shifted_levels[-1]) > 1:
+        shifted_levels[-1] = shifted_levels[-1][:-1]       # one box less at the finest level
+        ob = gen.make_pf(ndims=3, names=["zeta"], n0=pf1.n0, geo_lo=pf1.geo_lo, dx0=pf1.dx0, levels=shifted_levels, nfiles=1,
+                         seed=6, time=pf1.time)
+        ob_path = os.path.join(wd, "plt_other_boxes")
+        gen.write_plotfile(ob_path, ob)
+    else:
+        ob_path = None
+    for desc_, bad in (("different level count", other_path), ("different boxes", ob_path)):
+        if bad is None:
+            continue
+        out = os.path.join(wd, "comb_refused_" + desc_.replace(" ", "_"))
+        checks += 1
+        try:
+            combine(PlotfileCooker(path1), PlotfileCooker(bad), pltout=out)
+            fails.append({"what": "combine accepted inputs on different meshes", "call": desc_, "detail": ""})
+        except Exception:
+            if os.path.exists(out) and any(True for _ in os.scandir(out)):
+                fails.append({"what": "combine wrote output before refusing different meshes", "call": desc_,
+                              "detail": str(os.listdir(out))[:80]})
+    if tree_digest(path1) != d1 or tree_digest(path2) != d2:
+        fails.append({"what": "combine modified an input plotfile", "call": "", "detail": ""})
     return {"fails": fails[:20], "checks": checks}
